@@ -491,7 +491,7 @@ void big_operand_ops(Enumerator &E) {
                     }
             }
     // format strings with 300 / 1100 bytes of literal text, every spelling of the call
-    for (unsigned fi = 11; fi < 13; fi++)
+    for (unsigned fi = 11; fi < 14; fi++)
         for (unsigned var = 0; var < 8; var++)
             for (uint32_t a1 : {5u, 40u, 300u}) {
                 Builder b; uint32_t s = b.str(a1); uint32_t t2 = b.str(16);
